@@ -12,8 +12,19 @@ REPO = os.environ.get("VERIF_REPO", "/repo")
 # a candidate fix or a seeded change without touching /repo); it then gets its own build directory.
 BUILD = os.environ.get("VERIF_BUILD") or (os.path.join(VERIF, "build") if REPO == "/repo" else
                                            os.path.join(VERIF, "build", "alt-" + hashlib.md5(REPO.encode()).hexdigest()[:8]))
-COQ = os.path.join(VERIF, "coq")
+COQ_SRC = os.path.join(VERIF, "coq")
+# With VERIF_REPO set the Coq development is built in a private copy (the regenerated Gen/Consts.v
+# differs per source tree, and the shared tree must not be disturbed by a scratch run).
+COQ = COQ_SRC if REPO == "/repo" else os.path.join(BUILD, "coq")
 THEORIES = os.path.join(COQ, "theories")
+
+
+def sync_coq_copy():
+    if COQ == COQ_SRC:
+        return
+    os.makedirs(COQ, exist_ok=True)
+    subprocess.run(["rsync", "-a", "--delete", "--include=*/", "--include=*.v", "--exclude=*", "--exclude=Gen/Consts.v",
+                    COQ_SRC + "/theories", COQ + "/"], check=False)
 GUARD = "MUSCLE_VERIF_HOOKS"
 NCPU = os.cpu_count() or 4
 
@@ -91,6 +102,8 @@ def translate():
     timestamps re-check exactly the proofs that depend on a changed constant)."""
     sys.path.insert(0, os.path.join(VERIF, "gen"))
     import gen_consts
+    with Lock("coq"):
+        sync_coq_copy()
     txt, info = gen_consts.generate(REPO)
     with Lock("coq"):
         changed = write_if_changed(os.path.join(THEORIES, "Gen", "Consts.v"), txt)
